@@ -273,3 +273,57 @@ def run(ctx) -> None:  # noqa: F811
     ctx.require(n_slice >= 3, f"R-CENTRALSLICE matched {n_slice} parametrizations")
     ctx.require(n_gauss >= 2, f"R-GAUSSPAIR matched {n_gauss} parametrizations")
     _inner_run_c25_forms(ctx)
+
+
+# ---- added after the seeded change C25-r5seed2: a collection of elements is served by the same function, element by
+# ---- element, with everything else the caller asked for
+_inner_run_c25_delegate = run
+ANCHOR_PREFIX = "abtem.parametrizations"
+
+
+def _delegate_forward(ctx) -> None:
+    from ..rules import delegate as D
+
+    repo = ctx.repo
+    funcs = sorted((f for f in repo.all_functions() if f.module.name == ANCHOR_PREFIX
+                    or f.module.name.startswith(ANCHOR_PREFIX + ".")), key=lambda f: f.qualname)
+    ctx.require(len(funcs) >= 20, f"only {len(funcs)} functions found under {ANCHOR_PREFIX}")
+    n = 0
+    for f in funcs:
+        delegations, notes = D.analyse(repo, f)
+        for t in notes:
+            ctx.info("R-DELEGATE-FORWARD", f.qualname, f.where, t)
+        for d in delegations:
+            g = d.site.callee
+            target = "itself" if d.kind == "self" else g.short
+            for v in d.verdicts:
+                if v.status == "unread":
+                    ctx.info("R-DELEGATE-FORWARD", f"{f.qualname}:{v.param}", f.loc(d.site.call), v.detail)
+                    continue
+                n += 1
+                ctx.check(v.status == "forwarded", "R-DELEGATE-FORWARD", f"{f.qualname}:{v.param}", f.loc(d.site.call),
+                          f"per element of {'/'.join(d.source_params)} {f.short} calls {target}; `{v.param}` is handed "
+                          "over unchanged",
+                          f"{f.short} serves a collection in `{'/'.join(d.source_params)}` by calling {target} once per "
+                          f"element, but {v.detail}: the forms returned for several elements at once are not the forms "
+                          "of the same atoms returned one by one", key_detail=v.status)
+    ctx.require(n >= 1, "R-DELEGATE-FORWARD matched no per-element delegation under abtem/parametrizations "
+                        "(Parametrization.line_profiles serves a sequence of symbols element by element)")
+
+
+def run(ctx) -> None:  # noqa: F811
+    from ..rules import deferred
+
+    ctx.rule("R-DELEGATE-FORWARD", "a function that accepts one element or a collection of elements and serves the "
+             "collection by calling ITSELF (or a sibling function of its class / module) once per element hands every "
+             "other parameter that is read on a path serving one element to that call unchanged — by keyword, by "
+             "position, through a literal **mapping, through temporaries; the origin of the bound argument is the "
+             "parameter itself.  A parameter that is not bound (left to its default), or is bound to a literal, an "
+             "attribute or another parameter, makes f([e1, e2], q) differ from the join of f(e1, q) and f(e2, q): "
+             "line_profiles of several symbols would return another function (name), another range (cutoff) or another "
+             "grid (sampling) than the same request made symbol by symbol, so the real-space and reciprocal-space forms "
+             "obtained together no longer describe the atoms obtained one by one.  Decided for every function under "
+             "abtem/parametrizations that calls itself / a sibling inside a comprehension, a loop or map(lambda) over "
+             "one of its own parameters; forwarding that cannot be read (**kwargs that is not a literal, "
+             "functools.partial, a computation on the parameter) is an ANALYSIS-ERROR")
+    deferred.run(ctx, lambda: _delegate_forward(ctx), _inner_run_c25_delegate)
